@@ -60,6 +60,16 @@ class Report:
 
     # -- finishing
     def finish(self, level="other", extra_cov=None, assumptions=None, trusted=None, explanation=""):
+        if os.environ.get("VERIF_SELFTEST"):
+            # run by the thorough tier on a scratch copy with a seeded change: report on stdout only
+            known = {(k["property"], k["rule"], k["key"]) for k in load_known().get("findings", [])}
+            n = 0
+            for v in self.viols:
+                if (self.pid, v["rule"], v["key"]) not in known:
+                    print("SELFTEST-VIOLATION %s %s -- %s" % (v["rule"], v["key"], v["msg"][:300]))
+                    n += 1
+            print("== selftest %s violations=%d obligations=%d" % (self.pid, n, len(self.oks) + len(self.viols)))
+            return 1 if n else 0
         os.makedirs(OUT, exist_ok=True)
         os.makedirs(os.path.join(OUT, "violations"), exist_ok=True)
         os.makedirs(EVID, exist_ok=True)
@@ -133,6 +143,8 @@ class Report:
         }
         if extra_cov:
             cov.update(extra_cov)
+        if getattr(self, "extra", None):
+            cov.update(self.extra)
         ev = {
             "property_id": self.pid,
             "tier": self.tier,
